@@ -419,3 +419,49 @@ def random_agg_units(rnd, n, maxrows=200):
             term = {'k': 'clause', 'op': 'aggr', 'ds': var('DS_1'), 'items': items, 'mode': mode, 'group': group, 'having': having}
         units.append({'id': 'a%d' % i, 'env': {'DS_1': ds}, 'term': term, 'cc': True})
     return units
+
+
+# ---- temporal-typed datasets (Date with / without time part, Time_Period, Time, Duration) ------------------
+# The specification treats Time_Period / Time / Duration values as opaque (tag 13) and Dates as <<day, second>>; the
+# terms below only use operators whose meaning does not depend on the inside of an opaque value.
+
+def random_temporal_units(rnd, n):
+    units = []
+    for i in range(n):
+        idt = rnd.choice(['Integer', 'Integer', 'Time_Period', 'Date'])
+        ids = [('Id_1', idt)] + ([('Id_2', 'String')] if rnd.random() < 0.4 else [])
+        pool = [('Me_1', 'Date'), ('Me_2', 'Time_Period'), ('Me_3', 'Time_Period'), ('Me_4', 'Duration'), ('Me_5', 'Time'), ('Me_6', 'Integer')]
+        meas = sorted(rnd.sample(pool, rnd.choice([1, 2, 3, 4])))
+        nrows = rnd.choice([0, 1, 2, 3, 5, 8])
+        env = {'DS_1': gen.shuffled(rnd, gen.dataset(rnd, ids, [(m, 'M', t) for m, t in meas], nrows, keyspace=rnd.choice([4, 8]), null_p=0.3))}
+        comps = env['DS_1']['comps']
+        mnames = [m for m, _ in meas]
+        kind = rnd.choice(['id', 'keep', 'filter_null', 'filter_date', 'calc_null', 'set', 'rename', 'minmax', 'chain'])
+        t = var('DS_1')
+        if kind == 'keep' and len(mnames) > 1:
+            t = {'k': 'clause', 'op': 'keep', 'ds': t, 'items': rnd.sample(mnames, rnd.randrange(1, len(mnames)))}
+        elif kind == 'filter_null':
+            m = rnd.choice(mnames)
+            e = {'k': 'un', 'op': 'isnull', 'x': var(m)}
+            t = {'k': 'clause', 'op': 'filter', 'ds': t, 'items': [e if rnd.random() < 0.5 else {'k': 'un', 'op': 'not', 'x': e}]}
+        elif kind == 'filter_date' and 'Me_1' in mnames:
+            c = const([5, list(rnd.choice(gen.DATE_POOL))])
+            t = {'k': 'clause', 'op': 'filter', 'ds': t, 'items': [{'k': 'bin', 'op': rnd.choice(['>', '>=', '<', '=', '<>']), 'l': var('Me_1'), 'r': c}]}
+        elif kind == 'calc_null':
+            m = rnd.choice(mnames)
+            t = {'k': 'clause', 'op': 'calc', 'ds': t, 'items': [{'name': 'Flag', 'role': rnd.choice(['M', 'A']), 'expr': {'k': 'un', 'op': 'isnull', 'x': var(m)}}]}
+        elif kind == 'set':
+            env['DS_2'] = gen.shuffled(rnd, gen.dataset(rnd, ids, [(m, 'M', tt) for m, tt in meas], rnd.choice([0, 2, 4, 7]), keyspace=rnd.choice([4, 8]), null_p=0.3))
+            t = {'k': 'set', 'op': rnd.choice(['union', 'intersect', 'setdiff', 'symdiff']), 'ops': [var('DS_1'), var('DS_2')]}
+        elif kind == 'rename':
+            m = rnd.choice(mnames)
+            t = {'k': 'clause', 'op': 'rename', 'ds': t, 'items': [[m, 'Ren_%s' % m]]}
+        elif kind == 'minmax' and mnames == ['Me_1'] and len(ids) > 1:
+            t = {'k': 'agg', 'op': rnd.choice(['min', 'max']), 'x': t, 'mode': 'by', 'group': ['Id_2'], 'having': []}
+        elif kind == 'chain':
+            m = rnd.choice(mnames)
+            t = {'k': 'clause', 'op': 'filter', 'ds': t, 'items': [{'k': 'un', 'op': 'not', 'x': {'k': 'un', 'op': 'isnull', 'x': var(m)}}]}
+            if len(mnames) > 1:
+                t = {'k': 'clause', 'op': 'drop', 'ds': t, 'items': [rnd.choice([x for x in mnames if x != m])]}
+        units.append({'id': 't%d' % i, 'env': env, 'term': t, 'cc': True})
+    return units
